@@ -101,6 +101,15 @@ def extract(repo):
     if len(re.findall(r"if res\.is_err\(\) && streamed \{\s*self\.abort_streamed_block\(\);", tr)) != 2:
         raise ExtractError("add_block/remove_block: abort of a refused streamed request not found")
 
+    # apply_backward_change(FundingConfirmed): hard assert, or tolerant of a monitor created after the block (F18)
+    back = body_after(mo, r"fn apply_backward_change\(")
+    arm = re.search(r"StateChange::FundingConfirmed\(outpoint\) => \{(.*?)adds\.push\(outpoint\);", back, re.S)
+    if not arm:
+        raise ExtractError("apply_backward_change: FundingConfirmed arm not found")
+    if "assert_eq!(self.funding_height, Some(self.height))" not in arm.group(1):
+        raise ExtractError("apply_backward_change(FundingConfirmed): height assertion not found")
+    funding_undo_tolerant = "if self.funding_height.is_some()" in arm.group(1)
+
     btc_ver, diffchange = _bitcoin_constants(repo)
 
     lean = "namespace VlsModel.Gen.Chain\n"
@@ -117,6 +126,7 @@ def extract(repo):
     lean += f"def channelStubPruneRegtestExtra : Nat := {stub_regtest_extra}\n"
     lean += f"def forgetPersistsTracker : Bool := {'true' if forget_persists_tracker else 'false'}\n"
     lean += f"def removeExpectsTipHash : Bool := {'true' if remove_expects_tip_hash else 'false'}\n"
+    lean += f"def fundingUndoTolerant : Bool := {'true' if funding_undo_tolerant else 'false'}\n"
     lean += "end VlsModel.Gen.Chain\n"
     facts = {"MAX_REORG_SIZE": max_reorg, "DIFFCHANGE_INTERVAL": diffchange, "rust_bitcoin": btc_ver,
              "testnet_20min_gap_s": testnet_gap, "max_target": {k: "0x%x << %d" % v for k, v in tgt.items()},
@@ -125,6 +135,7 @@ def extract(repo):
              "stub_regtest_extra": stub_regtest_extra, "required_majority": "(n + 1) / 2",
              "is_done_events": [e for e, _ in lims],
              "forget_channel_persists_tracker": forget_persists_tracker,
+             "funding_undo_tolerant_of_late_monitor": funding_undo_tolerant,
              "remove_block_streamed_hash": "tip" if remove_expects_tip_hash else "previous header (finding F17)"}
     obl = ["Gen.Chain: maxReorgSize >= 1, diffchangeInterval > 0, minDepth > 0 (theorem *_gen_ok)"]
     return {"Chain.lean": lean}, {p: {"facts": facts, "obligations": obl} for p in ("C13", "C14", "C15")}
